@@ -97,7 +97,7 @@ def gen_schedule(rng, sid):
         elif r < 0.38:
             cmds.append(['Tick'])
         elif r < 0.50:
-            cmds.append(['Advance', rng.choice([1, 5, 10, 20, 30, 50, 100, 1000])])
+            cmds.append(['Advance', rng.choice([1, 5, 10, 20, 30, 50, 100, 1000, 1000, 61000, 130000])])
         elif r < 0.58:
             cmds.append(['SetSource', 's', rng.randint(0, 9)])
         elif r < 0.70:
@@ -141,6 +141,7 @@ SMALL_C = SMALL_B + [['CancelWaitingReader', 'w']]
 SMALL_D = SMALL_C + [['Disable', 'w'], ['Enable', 'w']]
 SMALL_E = SMALL_A + [['CompleteWrite', 'w', 'timeout']]
 SMALL_T = [['ApiWrite', 'w', 0], ['ApiWrite', 'w', 1], ['Tick'], ['CompleteRead', 'w', 'val'], ['CompleteWrite', 'w', 'ok']]
+SMALL_L = [['Tick'], ['Reset', 'w'], ['CompleteRead', 'w', 'val'], ['Advance', 61000], ['Advance', 1000]]
 SMALL_PORTS_PLAIN = {'w': {'writable': True, 'rlat': None, 'wlat': None, 'plain': True}}
 
 
@@ -648,21 +649,22 @@ def check(ctx, res):
     # exhaustive small scope on the one-port template (capacity 2)
     if ctx.tier == 'quick':
         small = (enum_small(SMALL_D, 4, 2, 0) + enum_small(SMALL_E, 4, 2, 300000) + enum_small(SMALL_T, 4, 2, 400000)
-                 + enum_small(SMALL_A, 4, 2, 500000, SMALL_PORTS_PLAIN))
+                 + enum_small(SMALL_A, 4, 2, 500000, SMALL_PORTS_PLAIN) + enum_small(SMALL_L, 4, 2, 600000))
     else:
         small = (enum_small(SMALL_A, 7, 2, 0) + enum_small(SMALL_B, 5, 2, 100000) + enum_small(SMALL_D, 4, 2, 200000)
                  + enum_small(SMALL_C, 5, 2, 250000) + enum_small(SMALL_E, 5, 2, 300000) + enum_small(SMALL_T, 5, 2, 400000)
-                 + enum_small(SMALL_A, 6, 2, 500000, SMALL_PORTS_PLAIN))
+                 + enum_small(SMALL_A, 6, 2, 500000, SMALL_PORTS_PLAIN) + enum_small(SMALL_L, 6, 2, 600000))
     batches(ctx, res, small, stats, seen, 'small', chunk=4000)
     res['exhaustive'] = True
     res['extra']['exhaustive_scope'] = (
         'all command sequences of length <= %s over {ApiWrite w, Tick, CompleteRead w, CompleteWrite w%s} on one writable port '
         'with manual latencies and capacity 2: %d schedules' % (
             ('4', ', Reset w, CancelWaitingReader w, Disable w, Enable w; with a driver timeout; with API values toggling over '
-             '{0,1}; with a driver whose methods return futures', len(small))
+             '{0,1}; with a driver whose methods return futures; reads hanging beyond a minute of virtual time', len(small))
             if ctx.tier == 'quick' else
             ('7 (<= 5 with Reset w; <= 5 with CancelWaitingReader w; <= 4 with Disable/Enable w; <= 5 with a driver timeout; '
-             '<= 5 with API values toggling over {0,1}; <= 6 with a driver whose methods return futures)', '', len(small))))
+             '<= 5 with API values toggling over {0,1}; <= 6 with a driver whose methods return futures; <= 6 over {Tick, Reset w, '
+             'CompleteRead w, Advance 61 s, Advance 1 s})', '', len(small))))
     n = ctx.n(400, 20000)
     scheds = [gen_schedule(ctx.rng, i) for i in range(n)]
     batches(ctx, res, scheds, stats, seen, 'rand')
